@@ -13,7 +13,9 @@ RULE = ("1..4 submitter tasks x 1..30 messages each via send_message/send_messag
         "(answers and DWRs; paced, or made readable at the instant a send() leaves bytes unwritten) on/off x schedules (round robin; random walk with line-level preemption); oracle: the bytes "
         "accepted by the peer side of the socket decode (reference decoder) into every submitted message exactly once and "
         "byte-identical, per-submitter order preserved, plus only whole node-originated base messages; "
-        "distinct = (write script, inbound?, submitters, schedule hash)")
+        "distinct = (write script, inbound?, submitters, schedule hash); plus real-loopback executions (nothing substituted): "
+        "3 application threads x 40 messages of 0..70 KB against a peer that reads 100 B..64 KB at a time through a 4..16 KB "
+        "receive buffer (kernel-made partial writes and EAGAIN), inbound answers on/off, the same oracle, then a checked close")
 
 
 def write_script(rng, kind):
@@ -201,6 +203,11 @@ def execute(acc, case):
 
 def run_batch(b):
     acc = harness.Acc()
+    if b.get("real"):
+        # real threads, real kernel sockets on 127.0.0.1, nothing substituted (bvm/realnet.py)
+        from bvm import realnet
+        realnet.run_cases(acc, b["real"])
+        return acc
     for case in b["cases"]:
         execute(acc, case)
     return acc
@@ -235,13 +242,16 @@ def main(tier, seed):
     cases = plan(tier, seed)
     nb = 16 if tier == "quick" else 64
     batches = [{"cases": cases[i::nb]} for i in range(nb)]
+    nreal, per = (4, 1) if tier == "quick" else (16, 6)
+    for i in range(nreal):
+        batches.append({"real": [{"kind": "outbound", "seed": seed * 7919 + i * 101 + j, "role": ("client", "server")[(i + j) % 2]} for j in range(per)]})
     acc = harness.run_workers("checks.c05_outbound", "run_batch", batches, 3000)
     harness.require_vnet_fidelity(acc)
     return harness.finish(PROP, tier, seed, "exploration", acc, RULE,
                           ["node-originated CER/CEA/DWR/DWA/DPR/DPA are legal in the outbound stream when they appear whole at message boundaries",
                            "vnet models Linux TCP send(): accepts a prefix or raises BlockingIOError",
                            "quiescence = all queues and buffers empty and two state-machine ticks without change"],
-                          t0, require_counters=("executions", "steps", "partial_sends", "batch_limit_reached", "inbound_injected_on_partial_write"))
+                          t0, require_counters=("executions", "steps", "partial_sends", "batch_limit_reached", "inbound_injected_on_partial_write", "real_loopback_ok"))
 
 
 def replay(w):
